@@ -262,11 +262,24 @@ fn text_calls(d: &Value, out: &mut Vec<Value>) {
     // custom font with non-zero character spacing: "spaced:<built-in font>:<spacing>"
     let fname = d["font"].as_str().unwrap().to_string();
     let spaced_font;
-    let cs = if let Some(rest) = fname.strip_prefix("spaced:") {
+    // degenerate glyph mappings of a user font: "oddmap:<built-in font>:<n>" - empty, descending range, range without
+    // end, replacement index beyond the font (the clean library draws the replacement glyph / nothing for them)
+    static ODD_MAPS: [embedded_graphics::mono_font::mapping::StrGlyphMapping<'static>; 5] = [
+        embedded_graphics::mono_font::mapping::StrGlyphMapping::new("", 0),
+        embedded_graphics::mono_font::mapping::StrGlyphMapping::new("\0 ?\0ZA\0ad", 0),
+        embedded_graphics::mono_font::mapping::StrGlyphMapping::new("ab\0", 1),
+        embedded_graphics::mono_font::mapping::StrGlyphMapping::new("\0az", 1000),
+        embedded_graphics::mono_font::mapping::StrGlyphMapping::new("\0zz\0\u{10FFFF}\u{10FFFF}A", 2),
+    ];
+    let cs = if let Some(rest) = fname.strip_prefix("spaced:").or(fname.strip_prefix("oddmap:")) {
         let mut it = rest.rsplitn(2, ':');
         let sp: u32 = it.next().unwrap().parse().unwrap();
         let base = egv::drawables::font_by_name(it.next().unwrap());
-        spaced_font = embedded_graphics::mono_font::MonoFont { character_spacing: sp, ..*base };
+        spaced_font = if fname.starts_with("oddmap:") {
+            embedded_graphics::mono_font::MonoFont { glyph_mapping: &ODD_MAPS[sp as usize % ODD_MAPS.len()], ..*base }
+        } else {
+            embedded_graphics::mono_font::MonoFont { character_spacing: sp, ..*base }
+        };
         let mut b = MonoTextStyleBuilder::<C>::new().font(&spaced_font);
         if i(&d["tc"]) >= 0 {
             b = b.text_color(C::from_u32(i(&d["tc"]) as u32));
@@ -607,6 +620,8 @@ fn gen_cases(th: bool, seed: u64) -> Vec<Value> {
     for fi in 0..=nfont + 6 {
         let fname = if fi == nfont { "null".to_string() } else if fi > nfont {
             format!("spaced:{}:{}", FONTS[(fi * 13) % FONTS.len()].0, [1, 2, 3, 7, 16, 64][fi - nfont - 1])
+        } else if fi % 8 == 5 {
+            format!("oddmap:{}:{}", FONTS[(fi * 7) % FONTS.len()].0, fi / 8)
         } else { FONTS[(fi * 7) % FONTS.len()].0.to_string() };
         for (si, s) in strings.iter().enumerate() {
             for k in 0..(if th { 6 } else { 2 }) {
